@@ -9,7 +9,7 @@ export GOFLAGS=-mod=mod GOPROXY=off GOSUMDB=off GOTOOLCHAIN=local
 W=$(mktemp -d "${TMPDIR:-/tmp}/verif-seed-XXXXXX")
 trap 'rm -rf "$W"' EXIT
 mkdir "$W/cache"; ( cd /repo && git ls-files -z | xargs -0 cp --parents -t "$W/cache" )
-DEMO=$(grep -oE 'func TestSeeded[234567]?_[A-Za-z0-9_]*' "$D/demo_test.go" | head -1 | sed 's/func //')
+DEMO=$(grep -oE 'func TestSeeded[2-9]?_[A-Za-z0-9_]*' "$D/demo_test.go" | head -1 | sed 's/func //')
 RACE=""; grep -q "race" "$D/notes.md" 2>/dev/null && [ "${SEED_RACE:-0}" = 1 ] && RACE="-race"
 if [ "${SEED_FAST:-0}" = 1 ]; then
   # re-evaluation of an already confirmed change: apply, build, run the checks only
